@@ -4,7 +4,7 @@ NOT_BUILT = "check not built yet in this round (design in DESIGN.md section 3); 
 
 
 def fill(claim, na):
-    for p in ["C01", "C02", "C03", "C04",  "C10", "C13",
+    for p in ["C01", "C03", "C04",  "C10", "C13",
               "C15", "C16"]:
         na(p, NOT_BUILT)
     na("C05", "equality of decoded flux with the sector dump is a statement about decoding arbitrary bit-streams "
@@ -93,3 +93,12 @@ def fill(claim, na):
           "Equality of outputs as such is not executed or compared.",
           "Trusts that writes to std::cerr / local string streams are unobservable on stdout, and the std const-contract.",
           "DESIGN.md 3/C18")
+    claim("C02",
+          "bit-provenance abstract domain (each result bit an XOR-affine form of symbolic catalogue bits) over every "
+          "metadata accessor, the catalogue-header constructor, sign_extend and the CRC step; source-order and "
+          "sign-extension-use rules on the info line and .inf writer",
+          "Decides the field-decoding clauses exhaustively (all 2^64 metadata values, all header bytes): every field "
+          "shown by info/cat/.inf comes from exactly the documented bits; sign extension and CRC-16 are the documented "
+          "functions. Column formatting, cat's sort order and 'each file exactly once' are not decided.",
+          "Trusts the transcription of the Acorn DFS layout and the domain's transfer functions.",
+          "DESIGN.md 3/C02")
